@@ -28,6 +28,7 @@ theorem reader_cases (c : Cfg) (s : State) : CanMove c s ∨ s.rpc = .exited ∨
     cases c.src[s.pulled]? <;> simp
   | app v i => exact Or.inl ⟨.rAppend, rfl, by simp [step, stepR, hr]⟩
   | put m => exact Or.inl ⟨.rPut, rfl, by simp [step, stepR, hr]⟩
+  | ret => exact Or.inl ⟨.rRet, rfl, by simp [step, stepR, hr]⟩
   | exited => exact Or.inr (Or.inl rfl)
 
 theorem worker_cases (c : Cfg) (s : State) (i : Nat) (p : WPc) (hi : s.wk[i]? = some p) :
@@ -81,25 +82,36 @@ theorem count_zero_of_ne (b : List Msg) (k : Nat) (h : ∀ m ∈ b, m.idx ≠ k)
   obtain ⟨m, hm, he⟩ := mem_idxs.mp hk
   exact h m hm he
 
-/-- The quiescent case: the consumer polls an empty queue and no other thread can move. -/
-theorem progress_get (h : Inv c s) (hpc : s.cpc = .get) (hq : outq c s = []) (hN : 0 < c.N) (hmax : 0 < c.max)
-    (hnd : NoDead s) (hne : ¬ SourceErrorRaised c s) : CanMove c s := by
+/-- The quiescent case: the consumer polls an empty queue and no other thread can move.  Then the reader has returned
+with nothing in flight, or a worker is not alive — exactly the two situations `__next__` tests for after `queue.Empty`. -/
+theorem progress_get (h : Inv c s) (hpc : s.cpc = .get) (hq : outq c s = []) (hN : 0 < c.N) (hmax : 0 < c.max) :
+    CanMove c s ∨ afterEmpty c s = .set1 ∨ afterEmpty c s = .dchk1 := by
   have hstop := stop_false_of h (by simp [hpc])
   have hmp := mpstop_false_of h hstop
   have hflag : (if c.proc = true then s.mpstop else s.stop) = false := by cases c.proc <;> simp [hstop, hmp]
   rcases reader_cases c s with hm | hr
-  · exact hm
+  · exact Or.inl hm
   rcases workers_cases c s with hm | hw
-  · exact hm
+  · exact Or.inl hm
   rcases sorter_cases c s with hm | hsp
-  · exact hm
-  exfalso
-  -- workers: all blocked on an empty in-queue
+  · exact Or.inl hm
+  right
+  by_cases hany : s.wk.any WPc.gone = true
+  · unfold afterEmpty
+    split
+    · exact Or.inl rfl
+    · simp [hany]
+  left
+  -- workers: all alive, hence all blocked on an empty in-queue
   have hw' : ∀ p ∈ s.wk, p = .get ∧ s.inq = [] := by
     intro p hp
+    have hg : p.gone = false := by
+      cases hgg : p.gone
+      · rfl
+      · exact absurd (List.any_eq_true.mpr ⟨p, hp, hgg⟩) hany
     rcases hw p hp with h1 | h1 | h1
-    · have := h.wExit p hp (Or.inl h1); rw [hflag] at this; simp at this
-    · exact absurd h1 (hnd p hp)
+    · simp [h1, WPc.gone] at hg
+    · simp [h1, WPc.gone] at hg
     · exact h1
   have hwne : s.wk ≠ [] := by
     intro he
@@ -167,44 +179,42 @@ theorem progress_get (h : Inv c s) (hpc : s.cpc = .get) (hq : outq c s = []) (hN
     rcases hr with h1 | ⟨_, h2⟩
     · exact h1
     · omega
-  have hpull : s.pulled = c.src.length + 1 := by
-    rcases h.rExit hrex with h1 | h1
-    · rw [hstop] at h1; simp at h1
-    · exact h1
-  have hgot : c.src.length ∈ s.got := by
-    have := drained h hheld (by simp [hpc, CPc.hand]) hlost c.src.length
-    rw [hpull] at this
-    simp at this
-    exact List.count_pos_iff.mp (by omega)
-  cases ht : c.term with
-  | stop =>
-    have := h.doneC ht (Or.inl hgot)
-    exact h.getNotFin hpc ⟨this, hsem⟩
-  | error => exact hne ⟨ht, hgot⟩
+  simp [afterEmpty, hrex, hsem]
 
-theorem progress_of_inv (h : Inv c s) (hin : s.cpc.inNext = true) (hN : 0 < c.N) (hmax : 0 < c.max)
-    (hnd : NoDead s) (hne : ¬ SourceErrorRaised c s) : CanMove c s := by
+/-- **Progress.** With the consumer inside `next()`: some non-timeout action is enabled, or the consumer's own timeout
+step (`queue.Empty`) takes it to the StopIteration exit (`set1`) or to the dead-worker exit (`dchk1`). -/
+theorem progress_of_inv (h : Inv c s) (hin : s.cpc.inNext = true) (hN : 0 < c.N) (hmax : 0 < c.max) :
+    CanMove c s ∨ ∃ s', step c s .cGetT = some s' ∧ (s'.cpc = .set1 ∨ s'.cpc = .dchk1) := by
   cases hpc : s.cpc with
   | boot => simp [hpc, CPc.inNext] at hin
   | idle => simp [hpc, CPc.inNext] at hin
   | shut1 => simp [hpc, CPc.inNext] at hin
   | closed => simp [hpc, CPc.inNext] at hin
   | top =>
-    refine ⟨.cIsSet, rfl, ?_⟩
+    refine Or.inl ⟨.cIsSet, rfl, ?_⟩
     simp only [step, stepC, hpc]
     split <;> simp
   | mp =>
-    refine ⟨.cMpIsSet, rfl, ?_⟩
+    refine Or.inl ⟨.cMpIsSet, rfl, ?_⟩
     simp only [step, stepC, hpc]
     split <;> simp
-  | chk => exact ⟨.cChk, rfl, by simp [step, stepC, hpc]⟩
-  | set1 => exact ⟨.cSet, rfl, by simp [step, stepC, hpc]⟩
-  | set2 => exact ⟨.cMpSet, rfl, by simp [step, stepC, hpc]⟩
+  | chk => exact Or.inl ⟨.cChk, rfl, by simp [step, stepC, hpc]⟩
+  | set1 => exact Or.inl ⟨.cSet, rfl, by simp [step, stepC, hpc]⟩
+  | set2 => exact Or.inl ⟨.cMpSet, rfl, by simp [step, stepC, hpc]⟩
+  | dchk1 => exact Or.inl ⟨.cDeadIsSet, rfl, by simp [step, stepC, hpc]⟩
+  | dchk2 => exact Or.inl ⟨.cDeadMpIsSet, rfl, by simp [step, stepC, hpc]⟩
+  | dset1 => exact Or.inl ⟨.cDeadSet, rfl, by simp [step, stepC, hpc]⟩
+  | dset2 => exact Or.inl ⟨.cDeadMpSet, rfl, by simp [step, stepC, hpc]⟩
   | get =>
     cases hq : outq c s with
-    | nil => exact progress_get h hpc hq hN hmax hnd hne
+    | nil =>
+      rcases progress_get h hpc hq hN hmax with hm | hm
+      · exact Or.inl hm
+      · right
+        refine ⟨{ s with cpc := afterEmpty c s }, ?_, hm⟩
+        simp [step, stepC, hpc, hq]
     | cons m rest =>
-      refine ⟨.cGet, rfl, ?_⟩
+      refine Or.inl ⟨.cGet, rfl, ?_⟩
       simp only [step, stepC, hpc, hq]
       cases m.pay <;> simp
   | rel m =>
@@ -212,12 +222,12 @@ theorem progress_of_inv (h : Inv c s) (hin : s.cpc.inNext = true) (hN : 0 < c.N)
       have := h.permits
       simp only [pending, hpc, CPc.permit] at this
       omega
-    refine ⟨.cRel, rfl, ?_⟩
+    refine Or.inl ⟨.cRel, rfl, ?_⟩
     simp only [step, stepC, hpc, hlt, if_true]
     cases m.pay <;> simp
   | pop m =>
     have := h.popItem m hpc
-    refine ⟨.cPop, rfl, ?_⟩
+    refine Or.inl ⟨.cPop, rfl, ?_⟩
     simp only [step, stepC, hpc]
     cases hp : m.pay <;> simp [Msg.isItem, hp] at this ⊢
 
